@@ -300,6 +300,23 @@ def main(argv=None):
                 selftest.run_for(pid, tier, seed)
             except Exception as e:
                 print("self-test skipped: %s" % e)
+            if tier == "thorough":
+                try:
+                    from . import mutate
+                    res = mutate.run_for(pid, jobs=int(os.environ.get("VERIF_JOBS", "12")))
+                    path = os.path.join(VERIF, "evidence", "%s.json" % pid)
+                    ev = json.load(open(path))
+                    ev["coverage"]["ast_mutants"] = res
+                    ev["wall_s"] = round(ev.get("wall_s", 0) + res.get("wall_s", 0), 3)
+                    json.dump(ev, open(path + ".tmp", "w"), indent=1, default=str)
+                    os.replace(path + ".tmp", path)
+                    if res.get("generated"):
+                        print("%s AST-computed mutants: %d generated, %d killed, %d survived, %d invalid, %d analysis errors, %.1fs" % (
+                            pid, res["generated"], res["killed"], len(res["survived"]), res["invalid"], len(res["analysis_error"]), res["wall_s"]))
+                        for w in res["survived"][:10]:
+                            print("   survived: " + w)
+                except Exception as e:
+                    print("AST-mutant pass skipped: %s" % e)
         return code
     except AnalysisError as e:
         print("ANALYSIS-ERROR property=%s %s" % (pid, e))
